@@ -44,16 +44,16 @@ Section Statements.
   Proof. exact (updates_memory leaf lpar lfit lpred lsetsfh ldefwl). Qed.
 
   (* A forecaster that refits on update: update(y) leaves exactly the state of a fresh forecaster
-     fitted on the union (once a horizon is known; see Refuted.v / finding F-C10-1 otherwise). *)
-  Theorem C10_refit_on_update_equals_fresh_fit : forall l (s : fstateT) y h,
-    ffh lpar s = Some h ->
-    do_update' l s y true = (fit_state' l (cfirst y (fmem lpar s)) (Some h), true).
+     fitted on the union, with the horizon seen so far - whether or not one has been given yet
+     (finding F-C10-1, fixed in /repo by 53a6ca7, was the failure of this for ffh s = None). *)
+  Theorem C10_refit_on_update_equals_fresh_fit : forall l (s : fstateT) y,
+    do_update' l s y true = (fit_state' l (cfirst y (fmem lpar s)) (ffh lpar s), true).
   Proof. exact (refit_on_update_equals_fresh_fit leaf lpar lfit). Qed.
 
   (* fit(y1); update(y2); predict  ==  fit(y1 followed by y2); predict *)
-  Theorem C10_fit_update_equals_fit_on_union : forall l y1 y2 h,
-    last (run' l y1 (Some h) [OUpdate y2 true; OPredict None]) (BErr, 0, [], None) =
-    last (run' l (cfirst y2 y1) (Some h) [OPredict None]) (BErr, 0, [], None).
+  Theorem C10_fit_update_equals_fit_on_union : forall l y1 y2 fh0 fp,
+    last (run' l y1 fh0 [OUpdate y2 true; OPredict fp]) (BErr, 0, [], None) =
+    last (run' l (cfirst y2 y1) fh0 [OPredict fp]) (BErr, 0, [], None).
   Proof. exact (fit_update_equals_fit_on_union leaf lpar lfit lpred lsetsfh ldefwl). Qed.
 
   (* With parameter updating disabled the fitted parameters stay those of the last fit while the
